@@ -100,8 +100,9 @@ def sort_of(t):
     elif k == 'tuple':
         sig = tuple(sort_name(sort_of(a)) for a in t.args)
         if sig not in _tuple_dt:
-            dt = z3.Datatype('Tup%d_%s' % (len(sig), '_'.join(sig)))
-            dt.declare('mk', *[('f%d' % i, sort_of(a)) for i, a in enumerate(t.args)])
+            nm = 'Tup%d_%s' % (len(sig), '_'.join(sig))
+            dt = z3.Datatype(nm)
+            dt.declare('mk_' + nm, *[('f%d_%s' % (i, nm), sort_of(a)) for i, a in enumerate(t.args)])      # unique names: SMT-LIB round trip
             _tuple_dt[sig] = dt.create()
         s = _tuple_dt[sig]
     elif k == 'opt':
@@ -112,8 +113,8 @@ def sort_of(t):
             nm = sort_name(b)
             if nm not in _opt_dt:
                 dt = z3.Datatype('Opt_%s' % nm)
-                dt.declare('none')
-                dt.declare('some', ('v', b))
+                dt.declare('none_' + nm)
+                dt.declare('some_' + nm, ('v_' + nm, b))
                 _opt_dt[nm] = dt.create()
             s = _opt_dt[nm]
     else:
